@@ -302,6 +302,8 @@ func selfdestructSeries(r *Rng, c *diffCase, a *Asm) {
 	}
 }
 
+var emptyAcct = common.BytesToAddress([]byte{0xda, 0x01})
+
 type diffCase struct {
 	fork     string
 	codes    map[common.Address][]byte
@@ -322,7 +324,10 @@ func setupState(c *diffCase) *state.StateDB {
 		sdb.SetState(a, common.Hash{31: 1}, common.Hash{31: 7})
 	}
 	sdb.AddBalance(callerAddr, big.NewInt(1_000_000))
-	sdb.Finalise(true) // original storage values = what was just set, like a committed pre-state
+	// an account that exists and is empty (nonce 0, no balance, no code): from Spurious Dragon on it is deleted at the end of a
+	// transaction that touched it (also by a zero-value call) and survives one that did not
+	sdb.CreateAccount(emptyAcct)
+	sdb.Finalise(false) // original storage values = what was just set, like a committed pre-state; empty accounts are kept
 	return sdb
 }
 
@@ -671,7 +676,7 @@ func driveDiff(seed uint64, n int, size int, em *Emitter) {
 		for k := 0; k < nC; k++ {
 			addrs = append(addrs, common.BytesToAddress([]byte{0xc0, 0, byte(k)}))
 		}
-		targets := append(append([]common.Address{}, addrs...), common.BytesToAddress([]byte{byte(1 + r.Intn(9))}), common.BytesToAddress([]byte{0xd9}))
+		targets := append(append([]common.Address{}, addrs...), common.BytesToAddress([]byte{byte(1 + r.Intn(9))}), common.BytesToAddress([]byte{0xd9}), emptyAcct)
 		c.root = addrs[0]
 		if r.Chance(60) {
 			// a chain of contracts that hand execution on by DELEGATECALL / CALLCODE (what CALLER, ADDRESS and CALLVALUE are in the
@@ -699,7 +704,22 @@ func driveDiff(seed uint64, n int, size int, em *Emitter) {
 				selfdestructSeries(r, c, pre)
 				em.Count("diff:selfdestruct-series:" + c.fork)
 			}
-			c.codes[a] = randomCodeFrom(pre, r, 3+r.Intn(size+10), targets)
+			steps := 3 + r.Intn(size+10)
+			if k == 0 && r.Chance(12) {
+				// zero-value calls to the account that exists empty in the pre-state, then a short program (most long ones fail
+				// somewhere and are rolled back): whether the account is still there afterwards is part of the state root
+				for j := 1 + r.Intn(2); j > 0; j-- {
+					kind := []byte{opCALL, opCALL, opCALL, opCALLCODE, opSTATICCALL}[r.Intn(5)]
+					pre.PushU(0).PushU(0).PushU(0).PushU(0)
+					if kind == opCALL || kind == opCALLCODE {
+						pre.PushU(0)
+					}
+					pre.PushBytes(emptyAcct[:]).Op(opGAS, kind, opPOP)
+				}
+				steps = r.Intn(4)
+				em.Count("diff:touch-empty-account:" + c.fork)
+			}
+			c.codes[a] = randomCodeFrom(pre, r, steps, targets)
 		}
 		c.input = r.Bytes([]int{0, 4, 36, 100}[r.Intn(4)])
 		for k, x := range c.input {
